@@ -201,33 +201,37 @@ Definition invert (st : sstate) : sstate :=
    the focus).  [vi]: editing mode; a Vi session is in navigation mode exactly
    when it is not searching. *)
 Record sess := mksess {
-  main : sbuf; field : str; ss_text : str; ss_dir : Z; ign : bool;
+  main : sbuf; field : str; fcur : Z; ss_text : str; ss_dir : Z; ign : bool;
   searching : bool; vi : bool }.
 
 Definition the_state (s : sess) : sstate := mkss (ss_text s) (ss_dir s) (ign s).
 
 Definition with_main (s : sess) (b : sbuf) : sess :=
-  mksess b (field s) (ss_text s) (ss_dir s) (ign s) (searching s) (vi s).
+  mksess b (field s) (fcur s) (ss_text s) (ss_dir s) (ign s) (searching s) (vi s).
+(* the search field is a Buffer of its own: text and cursor *)
+Definition with_field (s : sess) (f : str) (c : Z) : sess :=
+  mksess (main s) f c (ss_text s) (ss_dir s) (ign s) (searching s) (vi s).
+Definition with_state (s : sess) (t : str) (d : Z) : sess :=
+  mksess (main s) (field s) (fcur s) t d (ign s) (searching s) (vi s).
 
 (* search.start_search(direction=dir) *)
 Definition start_search (s : sess) (dir : Z) : sess :=
-  mksess (main s) (field s) (ss_text s) dir (ign s) true (vi s).
+  mksess (main s) (field s) (fcur s) (ss_text s) dir (ign s) true (vi s).
 
 (* search.stop_search(): unlink, reset the search buffer *)
 Definition stop_search (s : sess) : sess :=
-  mksess (main s) [] (ss_text s) (ss_dir s) (ign s) false (vi s).
+  mksess (main s) [] 0 (ss_text s) (ss_dir s) (ign s) false (vi s).
 
 (* search.do_incremental_search(direction, count) *)
 Definition do_incremental_search (s : sess) (dir count : Z) : sess :=
   let changed := negb (ss_dir s =? dir) in
-  let s1 := mksess (main s) (field s) (field s) dir (ign s) (searching s) (vi s) in
+  let s1 := with_state s (field s) dir in
   if changed then s1
   else with_main s1 (apply_search (main s1) (the_state s1) false count).
 
 (* search.accept_search() *)
 Definition accept_search (s : sess) : sess :=
-  let s1 := if len (field s) =? 0 then s
-            else mksess (main s) (field s) (field s) (ss_dir s) (ign s) (searching s) (vi s) in
+  let s1 := if len (field s) =? 0 then s else with_state s (field s) (ss_dir s) in
   stop_search (with_main s1 (apply_search (main s1) (the_state s1) true 1)).
 
 (* What BufferControl.create_content displays for the main buffer. *)
@@ -265,13 +269,41 @@ Definition backspace_main (b : sbuf) : sbuf :=
            (wi b) (cur b - 1)
   else b.
 
+(* editing the search field (self-insert, backward-delete-char, delete-char,
+   backward-char, forward-char, beginning-of-line, end-of-line on the search
+   buffer; it holds no line ending) *)
+Definition field_insert (s : sess) (c : Z) : sess :=
+  with_field s (slice_to (field s) (fcur s) ++ [c] ++ slice_from (field s) (fcur s)) (fcur s + 1).
+Definition field_backspace (s : sess) : sess :=
+  if 0 <? fcur s then
+    with_field s (slice_to (field s) (fcur s - 1) ++ slice_from (field s) (fcur s)) (fcur s - 1)
+  else s.
+Definition field_delete (s : sess) : sess :=
+  if fcur s <? len (field s) then
+    with_field s (slice_to (field s) (fcur s) ++ slice_from (field s) (fcur s + 1)) (fcur s)
+  else s.
+Definition field_left (s : sess) : sess := with_field s (field s) (Z.max 0 (fcur s - 1)).
+Definition field_right (s : sess) : sess := with_field s (field s) (Z.min (len (field s)) (fcur s + 1)).
+Definition field_home (s : sess) : sess := with_field s (field s) 0.
+Definition field_end (s : sess) : sess := with_field s (field s) (len (field s)).
+
+(* Vi '*' / '#': search_state.text = document.get_word_under_cursor(),
+   direction FORWARD / BACKWARD, apply_search(include_current_position=False,
+   count).  The word is an input of the key: Document.get_word_under_cursor is
+   modelled under C02; every theorem here holds for whatever word it is. *)
+Definition star_search (s : sess) (dir count : Z) (word : str) : sess :=
+  let s1 := with_state s word dir in
+  with_main s1 (apply_search (main s1) (the_state s1) false count).
+
 Inductive key :=
 | KCr | KCs                 (* C-r, C-s *)
 | KChar (c : Z)
 | KEnter | KCg | KBackspace | KEscape
 | KUp | KDown
 | Kn (count : Z) | KN (count : Z)   (* Vi: [count] n, [count] N *)
-| KSlash | KQuestion.
+| KSlash | KQuestion
+| KLeft | KRight | KHome | KEnd | KDelete
+| KStar (count : Z) (word : str) | KHash (count : Z) (word : str).
 
 (* None: the key is not one of the modelled search keys in this state (it
    would reach bindings outside this model). *)
@@ -283,16 +315,21 @@ Definition key_step (s : sess) (k : key) : option sess :=
       | KCs => Some (do_incremental_search s 0 1)
       | KUp => if vi s then None else Some (do_incremental_search s 1 1)
       | KDown => if vi s then None else Some (do_incremental_search s 0 1)
-      | KChar c => Some (mksess (main s) (field s ++ [c]) (ss_text s) (ss_dir s) (ign s) true (vi s))
-      | KSlash => Some (mksess (main s) (field s ++ [47]) (ss_text s) (ss_dir s) (ign s) true (vi s))
-      | KQuestion => Some (mksess (main s) (field s ++ [63]) (ss_text s) (ss_dir s) (ign s) true (vi s))
+      | KChar c => Some (field_insert s c)
+      | KSlash => Some (field_insert s 47)
+      | KQuestion => Some (field_insert s 63)
       | KBackspace =>
           if vi s && (len (field s) =? 0) then Some (stop_search s)
-          else Some (mksess (main s) (removelast (field s)) (ss_text s) (ss_dir s) (ign s) true (vi s))
+          else Some (field_backspace s)
+      | KDelete => Some (field_delete s)
+      | KLeft => Some (field_left s)
+      | KRight => Some (field_right s)
+      | KHome => Some (field_home s)
+      | KEnd => Some (field_end s)
       | KEnter => Some (accept_search s)
       | KEscape => if vi s then None else Some (accept_search s)
       | KCg => Some (stop_search s)
-      | Kn _ | KN _ => None
+      | Kn _ | KN _ | KStar _ _ | KHash _ _ => None
       end
     else if vi s then
       match k with
@@ -302,6 +339,8 @@ Definition key_step (s : sess) (k : key) : option sess :=
       | KQuestion => Some (start_search s 0)
       | Kn c => Some (with_main s (apply_search (main s) (the_state s) false c))
       | KN c => Some (with_main s (apply_search (main s) (invert (the_state s)) false c))
+      | KStar c w => Some (star_search s 0 c w)
+      | KHash c w => Some (star_search s 1 c w)
       | _ => None
       end
     else
@@ -376,12 +415,19 @@ Definition dec_key (s : sx) : option key :=
   | L [A 11] => Some KQuestion
   | L [A 12] => Some KUp
   | L [A 13] => Some KDown
+  | L [A 14] => Some KLeft
+  | L [A 15] => Some KRight
+  | L [A 16] => Some KHome
+  | L [A 17] => Some KEnd
+  | L [A 18] => Some KDelete
+  | L [A 19; A c; w] => match as_str w with Some w' => Some (KStar c w') | None => None end
+  | L [A 20; A c; w] => match as_str w with Some w' => Some (KHash c w') | None => None end
   | _ => None
   end.
 
 Definition enc_sess (s : sess) : sx :=
   let p := preview ceq_tab s in
-  L [A (wi (main s)); A (cur (main s)); sx_list sx_str (wl (main s)); sx_str (field s);
+  L [A (wi (main s)); A (cur (main s)); sx_list sx_str (wl (main s)); sx_str (field s); A (fcur s);
      sx_bool (searching s); sx_str (ss_text s); A (ss_dir s); sx_str (dtext p); A (dcur p)].
 
 (* a key outside the model ends the run with the marker -2 *)
@@ -415,7 +461,7 @@ Definition run_C16 (c : sx) : sx :=
       match map_opt as_str ws, as_bool (A ic), as_bool (A mode), map_opt dec_key ks with
       | Some ws', Some ic', Some vi', Some ks' =>
           let b := mksbuf ws' w cu in
-          if buf_ok b then L (run_keys (mksess b [] [] 0 ic' false vi') ks') else bad_case
+          if buf_ok b then L (run_keys (mksess b [] 0 [] 0 ic' false vi') ks') else bad_case
       | _, _, _, _ => bad_case
       end
   | _ => bad_case
